@@ -14,7 +14,7 @@ func init() {
 		Meta: report.Meta{
 			Property: "C02",
 			Rule: "G1 typing: every unary and binary operator x every ordered pair of operands from {0,1,2,-3,0.5,NaN,+Inf,-Inf,true,false,\"\",\"a\",\"b\",$n,$b,$s,$unknown}; " +
-				"G1-again: every operator on literal operands evaluated three times on one runner; G2 grouping: every expression tree with <=2 (quick) / <=3 (thorough, reduced operands) operators over all 14 binary and 2 unary operators, printed with minimal, full and redundant parentheses and every operator spelling; " +
+				"LIT: every number literal spelling of <=4 (quick) / 5 (thorough) digits over {0,1,7,8,9} (leading zeros) plus long digit strings around 2^31, 2^53, 2^63, 2^64 and beyond, each with 10 fraction spellings, alone, inside arithmetic and compared with its decimal value; G1-again: every operator on literal operands evaluated three times on one runner; G2 grouping: every expression tree with <=2 (quick) / <=3 (thorough, reduced operands) operators over all 14 binary and 2 unary operators, printed with minimal, full and redundant parentheses and every operator spelling; " +
 				"G3 evaluation order: every operator and nested call shapes with probe functions (also failing ones) as operands; values are captured typed by a host function (<<call cap(expr)>>) and the probe log is compared with the reference evaluator; " +
 				"a case is one (expression, rendering); non-trivial = expression with at least one operator",
 			StatesMean:  "distinct (expression, rendering) cases; transitions = real Next calls",
@@ -232,6 +232,34 @@ func runC02(ctx *report.Ctx) {
 		}
 		exprCase(ctx, c, "G2-two-ops", e, lay)
 	})
+	// G2-again: every tree of two operators over operands that include variables, evaluated three times by one
+	// runner (a node re-entered through a jump) while the variables change between the evaluations: the value of
+	// an expression is that of its operands now, whatever an earlier evaluation of the same text gave
+	againOperands := []func() *yc.Expr{
+		func() *yc.Expr { return yc.ENumber(2) }, func() *yc.Expr { return yc.EVariable("n") }, func() *yc.Expr { return yc.EVariable("b") },
+		func() *yc.Expr { return yc.EString("a") }, func() *yc.Expr { return yc.EVariable("s") },
+	}
+	part(ctx, "G2-again", -1, func(c *explore.Chooser) {
+		nops := 1 + c.Choose(2, "nops")
+		e := tree(c, nops, againOperands, true)
+		if !c.Mine() {
+			return
+		}
+		p := &yc.Program{Nodes: []*yc.Node{{Title: "A", Body: []*yc.Stmt{yc.Call("cap", e),
+			yc.Set("n", "=", yc.EBinary("+", yc.EVariable("n"), yc.ENumber(1))), yc.Set("b", "=", yc.ENotOf(yc.EVariable("b"))), yc.Set("s", "=", yc.EBinary("+", yc.EVariable("s"), yc.EString("x"))),
+			yc.Line("again"), yc.Jump("A")}}}}
+		srcs := yc.Render(p, nil)
+		ctx.Current("G2-again: " + srcs[0])
+		mm, st := yc.Walk(p, srcs, exprHost, yc.WalkOpts{MaxSteps: 6, MaxJumps: 2, CompareLog: true, StrictErrors: true})
+		ctx.AddEvals(1, 1)
+		ctx.AddStates(1)
+		ctx.AddTransitions(st.Steps)
+		ctx.AddTraces(1)
+		if mm != nil {
+			ctx.Violation(report.Violation{Clause: "expr-again-" + mm.Clause, Witness: yc.RenderExpr(e, nil) + " evaluated repeatedly while its variables change", Detail: fmt.Sprintf("%s; observed trace %v", mm.Detail, mm.Trace),
+				Choices: c.Choices(), Part: "G2-again", Extra: map[string]any{"scripts": srcs, "go_test": goTestFor(srcs, "abc", mm.Args, mm.Detail)}})
+		}
+	})
 	if ctx.Quick() {
 		// chains of three operators without parentheses (the precedence/associativity core)
 		part(ctx, "G2-chains3", -1, func(c *explore.Chooser) {
@@ -283,6 +311,47 @@ func runC02(ctx *report.Ctx) {
 		func() *yc.Expr { return yc.EBoolean(true) }, func() *yc.Expr { return yc.EString("ab") }, func() *yc.Expr { return yc.ECallOf("pfail") },
 		func() *yc.Expr { return yc.EVariable("n") },
 	}
+	// LIT: spellings of number literals. The grammar admits DIGIT+ ('.' DIGIT+)?: leading and trailing zeros,
+	// long digit strings; the value is the decimal meaning of the text.
+	{
+		var ints []string
+		var rec func(p string)
+		digs := []string{"0", "1", "7", "8", "9"}
+		maxLen := report.Pick(ctx, 4, 5)
+		rec = func(p string) {
+			if p != "" {
+				ints = append(ints, p)
+			}
+			if len(p) < maxLen {
+				for _, d := range digs {
+					rec(p + d)
+				}
+			}
+		}
+		rec("")
+		ints = append(ints, "0000010", "2147483648", "4294967296", "9007199254740993", "9223372036854775807", "9223372036854775808", "18446744073709551615", "18446744073709551616",
+			"123456789012345678901234567890", "0000000000000000000000017")
+		fracs := []string{"", ".0", ".5", ".50", ".05", ".125", ".14", ".30000000000000004", ".3333333333333333333333", ".000000000000000000001"}
+		ctx.Bound("LIT_integer_spellings", len(ints))
+		part(ctx, "LIT", -1, func(c *explore.Chooser) {
+			ip := ints[c.Choose(len(ints), "int")]
+			if !c.Mine() {
+				return
+			}
+			lit := yc.ENumberLit(ip + fracs[c.Choose(len(fracs), "fraction")])
+			var e *yc.Expr
+			switch c.Choose(3, "shape") {
+			case 0:
+				e = lit
+			case 1:
+				e = yc.EBinary("+", yc.ENumber(1), yc.EBinary("*", lit, yc.ENumber(2)))
+			case 2:
+				e = yc.EBinary("==", lit, yc.ENumber(lit.N))
+			}
+			exprCase(ctx, c, "LIT", e, nil)
+		})
+	}
+
 	part(ctx, "G3-calls", -1, func(c *explore.Chooser) {
 		atom := func() *yc.Expr { return argAtoms[c.Choose(len(argAtoms), "atom")]() }
 		var e *yc.Expr
